@@ -20,13 +20,22 @@ func main() {
 	if r.Replay != "" {
 		var c schedrun.ReplayCase
 		r.LoadReplay(&c)
+		if c.Kind == "frozen" {
+			var fc frozenCase
+			r.LoadReplay(&fc)
+			frozenStage(r, fc.Object)
+			r.StatesAdd(1)
+			r.Transitions(1)
+			r.Sample(fc)
+			r.Finish()
+		}
 		schedrun.Build(false)
 		if c.Kind == "race" || c.Choices == nil {
 			schedrun.Build(true)
 			schedrun.RacePass(r, []string{c.Scenario}, 300)
 		} else {
 			cj, _ := json.Marshal(c.Choices)
-			cmd := exec.Command(filepath.Join(ev.Root, ".work", "bin", "sched"), "replay", c.Scenario, string(cj))
+			cmd := exec.Command(filepath.Join(ev.Work(), "bin", "sched"), "replay", c.Scenario, string(cj))
 			out, err := cmd.CombinedOutput()
 			fmt.Print(string(out))
 			if err != nil {
@@ -40,10 +49,14 @@ func main() {
 	}
 	r.Rule("every interleaving of the real goroutines at every synchronisation operation (atomic.Value, Mutex, WaitGroup, sync.Map, channels, goroutine start/exit; statement-level points inside HeightMap.updateAt) with at most B preemptions, B as reported; " +
 		"oracle: no deadlock, no panic, outcome equal to the sequential outcome, a single index object published. states = distinct schedule-tree nodes, transitions = decisions executed, traces = complete executions (every one is an implementation run). " +
-		"non-trivial = scenario with more than one execution. Plus a free-running -race pass of the same bodies and of 8-goroutine read-only query bodies on shared colliders/SDFs/solids/renderers")
+		"non-trivial = scenario with more than one execution (and each shared object whose complete reachable state was found unchanged by every read-only query of the lattice alphabet, frozen-state stage). Plus a free-running -race pass of the same bodies and of 8-goroutine read-only query bodies on shared colliders/SDFs/solids/renderers")
 	r.Assume("sequential consistency (weaker memory-model effects are outside the scheduler)",
 		"code without synchronisation operations is judged by the race detector pass, not by interleaving enumeration",
 		"map iteration order is canonical (vmap) in the instrumented build; the global math/rand source is a per-thread deterministic generator")
+	r.Isolate("frozen", func() { frozenStage(r, "") })
+	if os.Getenv("VERIF_C13_ONLY_FROZEN") != "" {
+		r.Finish()
+	}
 	schedrun.Build(true)
 	bound := 2
 	if r.Thorough() {
@@ -76,7 +89,7 @@ func main() {
 		reps = 2000
 	}
 	schedrun.RacePass(r, raceNames, reps)
-	if st, err := os.ReadFile(filepath.Join(ev.Root, ".work", "instr", "stats.txt")); err == nil {
+	if st, err := os.ReadFile(filepath.Join(ev.Work(), "instr", "stats.txt")); err == nil {
 		r.Set("instrumented_sites", string(st))
 	}
 	r.Finish()
